@@ -20,7 +20,7 @@ RULE = ("a case marks a random subset of fields (text, host, integer, boolean, b
         "sensitive position equals the unmasked rendering (non-sensitive AES secrets are compared by decrypting), "
         "mask None changes nothing, documents decode to the masked tree; non-trivial = >= 2 sensitive non-empty "
         "positions at >= 2 depths and >= 1 non-sensitive position; distinct = distinct case content")
-REQUIRED = ("renders_after_failed_masked_render", "renders_after_schema_growth", "virtual_documents_scanned", "virtual_renderings_checked", "lists_reassigned_from_own_items", "sensitive_lists_checked", "unmasked_reference_checks", "trees_scanned", "documents_scanned", "sensitive_positions_checked", "nonsensitive_positions_checked",
+REQUIRED = ("configurations_held_by_untyped_fields", "renders_after_failed_masked_render", "renders_after_schema_growth", "virtual_documents_scanned", "virtual_renderings_checked", "lists_reassigned_from_own_items", "sensitive_lists_checked", "unmasked_reference_checks", "trees_scanned", "documents_scanned", "sensitive_positions_checked", "nonsensitive_positions_checked",
             "mask:none", "mask:empty", "mask:one-char", "mask:multi-char", "sensitive_in_list_items", "sensitive_in_ctype",
             "sensitive_at_depth>=2")
 ASSUMPTIONS = ["the length rule (mask character repeated to the value's length) is asserted for text values only",
@@ -64,7 +64,9 @@ def generate(rng, ctx):
         "sub.t": _scope(rng), "sub.deep.t": _scope(rng), "plain.t": _scope(rng),
         "items": [_scope(rng) for _ in range(rng.choice([0, 1, 2, 3]))],
         "sitems": [token(rng) for _ in range(rng.choice([0, 1, 2]))],
-        "vtok": token(rng), "reassign": rng.choice([None, None, "slice", "list", "filter"]),
+        "vtok": token(rng), "reassign": rng.choice([None, None, "slice", "list", "filter", "add", "copy", "shared", "taken-over"]),
+        # a configuration object held by an untyped field (and by an extra field of a dynamic section)
+        "held": rng.random() < 0.5,
         "titems": [_scope(rng) for _ in range(rng.choice([0, 1, 2]))],
     }
     # all items of one list share the item schema: sensitivity per kind is fixed by the first item
@@ -147,6 +149,13 @@ def run(case, ctx, res):
         return "fine"
 
     root.zboom = cc.VirtualField(zgetter)
+    root.holder = cc.AnyField() if hasattr(cc, "AnyField") else cc.Field()
+    root.dynsec = cc.Schema(dynamic=True)
+    root.dynsec.note = cc.StringField(default="n")
+    hs = cc.Schema()
+    hs.password = cc.StringField(sensitive=True)
+    hs.label = cc.StringField()
+    hs.inner.token = cc.StringField(sensitive=True)
     keypath = os.path.join(ctx.dir, "mask.key")
     cfg = cc.Config(root, key_filename=keypath)
 
@@ -171,13 +180,38 @@ def run(case, ctx, res):
         # lists re-assigned from their own current items (pruned / copied): still typed, still masked
         for lst in ("items", "titems"):
             cur = getattr(cfg, lst)
-            if how == "slice":
+            if how == "add":
+                setattr(cfg, lst, cur + [])
+            elif how == "copy":
+                setattr(cfg, lst, cur.copy())
+            elif how == "shared" and len(cur):
+                # the first item object is put into the list of a second configuration as well
+                other = cc.Config(root, key_filename=keypath)
+                setattr(other, lst, [])
+                getattr(other, lst).append(cur[0])
+            elif how == "taken-over" and len(cur):
+                # a second configuration takes the whole list over
+                other = cc.Config(root, key_filename=keypath)
+                setattr(other, lst, cur)
+            elif how == "slice":
                 setattr(cfg, lst, cur[0:])
             elif how == "list":
                 setattr(cfg, lst, list(cur))
             else:
                 setattr(cfg, lst, [it for it in cur if it is not None])
         res.count("lists_reassigned_from_own_items")
+    htok = "tk%016x" % ((hash(vtok) >> 3) & 0xFFFFFFFFFFFFFFFF)
+    if lay.get("held"):
+        for where in ("holder", "dynsec"):
+            held = hs()
+            held.password = htok + "-pw-" + where
+            held.label = "plain-label"
+            held.inner.token = htok + "-tok-" + where
+            if where == "holder":
+                cfg.holder = held
+            else:
+                cfg.dynsec.extra_cfg = held
+        res.count("configurations_held_by_untyped_fields")
     stoks = lay.get("sitems", [])
     cfg.sitems = [{"owner": t, "n": i} for i, t in enumerate(stoks)]
     cfg.sub.sitems = [{"owner": t + "-sub", "n": i} for i, t in enumerate(stoks[:1])]
@@ -230,6 +264,12 @@ def run(case, ctx, res):
             return
         if mask is not None and not _check_sensitive_lists(res, tree, stoks, mask, "tree"):
             return
+        if mask is not None and lay.get("held"):
+            hit = find_token_deep(tree, htok)
+            if hit:
+                res.viol("M-leak", "unmasked:configuration-held-by-untyped-field", "tree with mask %r shows sensitive values of a "
+                         "configuration that an untyped field / a dynamic section holds: %r" % (mask, _short({k: tree.get(k) for k in ("holder", "dynsec")})))
+                return
         try:
             vtree = cfg.to_tree(virtual=True, sensitive_mask=mask)
         except Exception as exc:
